@@ -194,6 +194,51 @@ pub fn run(cfg: &Cfg) {
         }
         out.hit("stored_id_replaced");
     }
+    // 4b. unusual environments around the stored id: the id file is a symbolic link to the file that holds the id; TMPDIR
+    //     points elsewhere (the id lives in /tmp/dbus_machine_uuid whatever the environment says). The stored id is
+    //     answered on every call and is left alone.
+    {
+        let ask = |conn: &mut rustbus::connection::ll_conn::DuplexConn, server: &mut std::os::unix::net::UnixStream| -> String {
+            let mut msg: MarshalledMessage = MessageBuilder::new().call("GetMachineId").at(":1.1").on("/").build();
+            msg.dynheader.interface = Some("org.freedesktop.DBus.Peer".into());
+            msg.dynheader.sender = Some(":1.5".into());
+            msg.dynheader.serial = NonZeroU32::new(9);
+            let _ = rustbus::peer::handle_peer_message(&msg, conn).unwrap();
+            let written = peer::drain(server);
+            peer::decode_frame(&written).unwrap().body.parser().get::<String>().unwrap()
+        };
+        let stored = "00112233445566778899AABBCCDDEEFF";
+        // (a) symbolic link
+        let target = format!("/tmp/dbus_machine_uuid.vh_target_{}", std::process::id());
+        let _ = std::fs::remove_file("/tmp/dbus_machine_uuid");
+        std::fs::write(&target, stored).unwrap();
+        std::os::unix::fs::symlink(&target, "/tmp/dbus_machine_uuid").unwrap();
+        let ids: Vec<String> = (0..3).map(|_| ask(&mut conn, &mut server)).collect();
+        let after = std::fs::read_to_string(&target).unwrap_or_default();
+        if ids.iter().any(|i| i != stored) || after != stored {
+            out.violation("stored-id-behind-symlink", &format!("the id file is a symbolic link to a file holding {:?}: answers {:?}, the file now holds {:?}", stored, ids, after));
+        }
+        let _ = std::fs::remove_file("/tmp/dbus_machine_uuid");
+        let _ = std::fs::remove_file(&target);
+        out.hit("stored_id_behind_symlink");
+        // (b) TMPDIR set to another directory
+        std::fs::write("/tmp/dbus_machine_uuid", stored).unwrap();
+        let other_tmp = format!("{}/c20_tmpdir", cfg.outdir);
+        let _ = std::fs::create_dir_all(&other_tmp);
+        let old_tmpdir = std::env::var_os("TMPDIR");
+        std::env::set_var("TMPDIR", &other_tmp);
+        let ids: Vec<String> = (0..3).map(|_| ask(&mut conn, &mut server)).collect();
+        match old_tmpdir {
+            Some(v) => std::env::set_var("TMPDIR", v),
+            None => std::env::remove_var("TMPDIR"),
+        }
+        let stray = std::fs::read_dir(&other_tmp).map(|d| d.count()).unwrap_or(0);
+        if ids.iter().any(|i| i != stored) || stray != 0 {
+            out.violation("stored-id-with-TMPDIR", &format!("/tmp/dbus_machine_uuid holds {:?} and TMPDIR points elsewhere: answers {:?}, {} file(s) appeared under TMPDIR", stored, ids, stray));
+        }
+        let _ = std::fs::remove_file("/tmp/dbus_machine_uuid");
+        out.hit("stored_id_with_tmpdir");
+    }
     // 5. a caller that has shut down its sending side (it sent its last call and only reads from now on) still gets its answer
     for member in ["Ping", "GetMachineId"] {
         let (mut c2, mut s2) = peer::connect_pair(false);
@@ -214,7 +259,7 @@ pub fn run(cfg: &Cfg) {
         out.hit("half_closed_caller");
     }
     out.finish(
-        "stored id replaced between calls (atomic rename; the answer follows the stored id); a half-closed caller still gets exactly one method return; formatter: boundary (each power of 16 +-1 per word) x random triples, non-trivial = some word has a leading zero digit (distinct by request); peer logic: 6 interfaces x 8 members incl. absent/near-miss, non-trivial = distinct (iface,member)",
+        "stored id replaced between calls (atomic rename; the answer follows the stored id); the id file as a symbolic link; TMPDIR pointing elsewhere; a half-closed caller still gets exactly one method return; formatter: boundary (each power of 16 +-1 per word) x random triples, non-trivial = some word has a leading zero digit (distinct by request); peer logic: 6 interfaces x 8 members incl. absent/near-miss, non-trivial = distinct (iface,member)",
         false,
     );
 }
